@@ -588,8 +588,12 @@ def coq_term(case, obs):
     # (1) faithful algorithm model = C exactly (emission order, summaries, totals)
     # (2) specification = C as sets per pair
     # (3) the hypotheses of Props.C19.ibd_alg_refines_spec_partial hold at every position
+    # (4) the Python facade: result[(a,b)] / result[(b,a)] for every requested pair, len(), pairs
+    probes = "[" + "; ".join("((%s, %s), %s)" % (cz(a), cz(b), "None" if fw == "KeyError" else "(Some %s)" % cz(fw[0]))
+                             for a, b, fw, bw in tt.get("probe", []) if fw == bw and (fw == "KeyError" or isinstance(fw, list))) + "]"
     t = ("let c := %s in let stored := %s in c19_check_alg c stored %s %s %s %s && c19_check_spec c stored && c19_check_valid c"
-         % (c, stored, summ, cz(ff["num_segments"]), tot, "true" if exact else "false"))
+         " && c19_check_facade c %s %s"
+         % (c, stored, summ, cz(ff["num_segments"]), tot, "true" if exact else "false", probes, cz(tt["num_pairs"])))
     return t
 
 
@@ -969,7 +973,67 @@ class IbdDecimal(IbdBase):
         return []
 
 
-FAMILIES = [IbdShapes, IbdSmall, IbdLarge, IbdErrors, IbdBigNodes, IbdDecimal]
+class IbdUnsorted(Family):
+    """TableCollection.ibd_segments on integrity-clean tables whose EDGES ARE NOT SORTED by parent time
+    (outside the property's quantifier; documented requirement "same as simplify", which rejects them).
+    Expected: an error, or the result for the sorted tables.  Finding C19-unsorted-tables."""
+    name = "ibd_unsorted"
+    workers = 4
+    prelude = PRELUDE
+
+    def generate(self, rng, tier):
+        yield {"desc": {"L": 10, "scale": 1, "nodes": [[1, 0], [1, 0], [0, 1], [0, 2]],
+                        "edges": [[0, 10, 3, 2], [0, 10, 2, 0], [0, 10, 3, 1]]}, "within": None, "between": None,
+               "min_span2": 0, "max_time2": None}
+        n = 0
+        while n < (25 if tier == "quick" else 300):
+            c = make_case(rng, 7, 5, exact_only=True)
+            if len(c["desc"]["edges"]) < 3:
+                continue
+            c["layout"] = "list"
+            n += 1
+            yield c          # edges are in the generator's shuffled order and are NOT sorted here
+
+    @staticmethod
+    def snap(r):
+        return sorted([int(a), int(b), float(x.left), float(x.right), int(x.node)] for (a, b), sl in r.items() for x in sl)
+
+    def observe(self, case):
+        tc = gen_ts.build_tables(full(case), sort=False, index=False)
+        srt = gen_ts.build_tables(full(case))
+        times = [t for _f, t in case["desc"]["nodes"]]
+        ptimes = [times[e.parent] for e in tc.edges]
+        out = {"sorted_by_parent_time": ptimes == sorted(ptimes)}
+        kw = call_args(case)
+        out["want"] = self.snap(srt.ibd_segments(store_segments=True, **kw))
+        try:
+            out["got"] = self.snap(tc.ibd_segments(store_segments=True, **kw))
+        except Exception as e:
+            out["got"] = exc(e)
+        try:
+            tc.simplify()
+            out["simplify"] = "accepted"
+        except Exception as e:
+            out["simplify"] = exc(e)
+        return out
+
+    def oracle(self, case, obs):
+        if isinstance(obs["got"], str) or obs["got"] == obs["want"]:
+            return []
+        return [("unsorted-tables-silently-wrong",
+                 "unsorted edge table accepted, result %r differs from the sorted tables' %r (simplify: %s)"
+                 % (obs["got"][:3], obs["want"][:3], obs["simplify"]))]
+
+    def nontrivial(self, case, obs):
+        return not obs["sorted_by_parent_time"]
+
+    def describe(self, case, obs):
+        return {"sorted_by_parent_time": obs["sorted_by_parent_time"],
+                "outcome": "error" if isinstance(obs["got"], str) else ("same" if obs["got"] == obs["want"] else "different"),
+                "simplify": obs["simplify"]}
+
+
+FAMILIES = [IbdShapes, IbdSmall, IbdLarge, IbdErrors, IbdBigNodes, IbdDecimal, IbdUnsorted]
 
 NOT_COVERED = [
     "tsk_ibd_finder -> IbdSpec refinement is not proved in Coq (ibd_alg_refines_spec_partial); tied per run on the generated cases",
